@@ -28,7 +28,11 @@ RULE = ("seeded data sets (distinct x, more points than parameters; sigma_y none
         "points recorded as REPEATED MEASUREMENTS (uncertainty = error on the mean / standard "
         "deviation / propagated error of the error-weighted mean, as chosen on the point); "
         "generating parameters and guess on a mirrored or negative branch (Gaussian width < 0, "
-        "sine (-a, -b), negative amplitudes and rates); data "
+        "sine (-a, -b), negative amplitudes and rates); USER MODELS AS EVERY KIND OF CALLABLE (lambda, "
+        "def, renamed lambda, functools.partial, object with __call__ with and without a __name__, "
+        "bound method, decorated function, *params) UNDER EVERY KIND OF NAME (each pre-set model "
+        "name, 'custom', other names), among them user formulas that are polynomials with the "
+        "parameters in another order or a power left out; data "
         "passed as lists, arrays, MeasurementArrays, XYDataSet (keywords or arrays carrying the "
         "uncertainties), XYDataSet.fit, keywords, enum model, y as DerivedValues, Plot.fit) fitted by "
         "the real library; the returned parameters/covariance are certified by the Lean driver "
@@ -141,7 +145,42 @@ def targeted(ctx):
             c["guess_kind"] = ("list", "tuple")[(k // 2) % 2]
             out.append(c)
             k += 1
-    out += typed_cases(rng) + repeated_cases(rng) + signed_cases(rng)
+    out += typed_cases(rng) + repeated_cases(rng) + signed_cases(rng) + callable_cases(rng)
+    return out
+
+
+def callable_cases(rng, want_range=None, every=1):
+    """(6) USER MODELS AS EVERY KIND OF CALLABLE UNDER EVERY KIND OF NAME (fitgen CALLABLE NOTES): a
+    user function is fitted as what it computes -- also when it is called `linear`, `quadratic`,
+    `polynomial`, `gaussian`, `exponential` or `custom`, is a functools.partial, an object with
+    __call__, a bound method, a decorated function or takes *params"""
+    out = []
+    fams = ("custom:affine", "custom:sine", "custom:parabola", "custom:growth", "custom:cubic0",
+            "custom:lorentz", "custom:lpeak", "custom:decay")
+    forms = ("lists", "xyds.fit", "marrays", "plot.fit", "kwargs", "arrays", "xyds")
+    k = 0
+    for kind in G.NAMED_KINDS:
+        for name in G.PRESET_NAMES + ("custom", "Linear"):
+            fam = fams[k % len(fams)]
+            if name in ("quadratic", "polynomial") and k % 2:
+                fam = ("custom:cubic0", "custom:lpeak")[(k // 2) % 2]      # three parameters
+            k += 1
+            if k % every:
+                continue
+            c = G.gen_case(rng, family=fam, form=forms[k % len(forms)], want_range=want_range,
+                           noise_free=(k % 4 == 0), sx=("none", "common", "point")[k % 3])
+            out.append(G.add_callable(rng, c, kind, name))
+    for k, kind in enumerate(("partial", "object", "lambda", "partial", "object")):
+        c = G.gen_case(rng, family=fams[k], form=forms[k], want_range=want_range)
+        out.append(G.add_callable(rng, c, kind))
+    # the polynomial-like user formulas under the colliding names, by def, in every data-passing form
+    for k, form in enumerate(G.FORMS):
+        fam, name = (("custom:affine", "linear"), ("custom:parabola", "quadratic"),
+                     ("custom:cubic0", "polynomial"), ("custom:cubic0", "quadratic"))[k % 4]
+        if (k + 1) % every:
+            continue
+        c = G.gen_case(rng, family=fam, form=form, want_range=want_range, noise_free=(k % 3 == 0))
+        out.append(G.add_callable(rng, c, "def", name))
     return out
 
 
